@@ -649,6 +649,16 @@ mut('c14-removematch-keeps-router-rule', ['C14'], BU,
 mut('c14-stub-signature', ['C14'], CL,
     [("            'ReleaseName',\n            interface='org.freedesktop.DBus',\n            signature='s',", "            'ReleaseName',\n            interface='org.freedesktop.DBus',\n            signature='su',")], ['C14.D6'])
 
+# ---- strengthened after seeded changes ------------------------------------------
+mut('c13-stale-allow-flag', ['C13'], BU,
+    [("                    if caller not in queue:\n                        queue.append(caller)\n                    caller.busNames[name] = allow_replacement",
+      "                    if caller not in queue:\n                        queue.append(caller)\n                        caller.busNames[name] = allow_replacement")], ['C13.D2'])
+mut('c14-endian-from-parse', ['C14', 'C03'], MS,
+    [("    m.serial = hval[5]\n", "    m.serial = hval[5]\n    m.endian = hval[0]\n")], ['C14.D3', 'C03.D4'])
+mut('c09-shared-disconnect-list', ['C09'], OB,
+    [("    _disconnectCBs = None\n", "    _disconnectCBs = []\n"),
+     ("        if self._disconnectCBs is None:\n            self._disconnectCBs = []\n", "")], ['C09.D6'])
+
 # benign variants --------------------------------------------------------------
 mut('ok-int16-condexpr', ['C01', 'C02'], M,
     [("return 2, [struct.pack(lendian and '<h' or '>h', var)]",
